@@ -93,6 +93,38 @@ theorem holds_after_writes (old : Bytes) (ws : List (Nat × Bytes)) (h : WfWrite
   have hl := length_pokes old ws h.1
   exact ⟨hl, fun w hw => ⟨by rw [hl]; exact h.1 w hw, peek_pokes_mem old ws h w hw⟩⟩
 
+/-- **A node is read back, whatever its slot assignment**: any node image with a readable geometry
+(`WfNode`), stored with non-overlapping stores over arbitrary old content, is returned by the reader. -/
+theorem node_roundtrip (old : Bytes) (s : Sblk) (h : WfNode old.length s) (hw : WfWrites old.length (nodeWrites s)) :
+    parseSblk (Mem.ofBytes (pokes old (nodeWrites s))) s.blk = .ok s := by
+  obtain ⟨hl, hh⟩ := holds_after_writes old (nodeWrites s) hw
+  exact parseSblk_ok _ s (by rw [hl]; exact h) hh
+
+/-- **Node contents round trip.** Records appended to a fresh data block the way `_kvblk_addkv` does it (record `j`
+into slot `j`, right below record `j-1`, offsets counted from the block end; `mkNode`, `layoutSlots`), the index
+synced by `_kvblk_sync_mm` and the node record by `_sblk_sync_mm`, are read back by the reader as the same
+record list in `pi` order, provided they fit the block (`NodeFits`: the test `_kvblk_addkv` makes before it
+grows the block) and node record and data block lie apart inside the file. -/
+theorem node_contents_roundtrip (old : Bytes) (p : NodePlace) (lvl : Nat) (n : List Nat) (p0 : Nat)
+    (recs : List (Bytes × Bytes)) (h : NodeFits old.length p lvl n p0 recs) :
+    (parseSblk (Mem.ofBytes (pokes old (nodeWrites (mkNode p lvl n p0 recs)))) p.blk).map (fun s => (s.pi, s.recs)) =
+      .ok (List.range recs.length, recs) := by
+  have := node_roundtrip old (mkNode p lvl n p0 recs) (mkNode_wf _ p lvl n p0 recs h) (mkNode_writes _ p lvl n p0 recs h)
+  have hb : (mkNode p lvl n p0 recs).blk = p.blk := rfl
+  rw [hb] at this
+  rw [this]
+  simp only [Except.map, mkNode_pi]
+  rfl
+
+/-- non-vacuity: a two-record node of level 1 at block 40 with a 512-byte data block at block 48 of an 8 KB file -/
+example : NodeFits 8192 ⟨40, 48, 9, 1⟩ 1 [0, 52] 30 [([3, 4], [5]), ([2], [9, 9, 200])] := by
+  refine ⟨by decide, by decide, by decide, by decide, by decide, by decide, by decide, by decide, ?_, ?_, by decide, ?_,
+    by decide, by decide, by decide⟩
+  · intro r hr; simp at hr; rcases hr with rfl | rfl <;> (intro b hb; simp at hb; omega)
+  · intro r hr; simp at hr; rcases hr with rfl | rfl <;> simp [encKv, enc_small, Gen.IWKV_MAX_KVSZ]
+  · simp [layoutSlots, layoutOffs, encKv, enc_small, encSlots, total_cons, total_nil, Gen.KVBLK_IDXNUM, Gen.KVBLK_HDRSZ,
+      List.replicate]
+
 /-- **Reopen reads back what close left in the file.** Take any database image `d` the C code can have
 written (`WfDbImg`: field ranges of the C types, level-0 links threading the nodes, every slot naming a
 record of its length, and the *layout*: all stores inside the file and pairwise disjoint), write it over
